@@ -327,7 +327,7 @@ HARNESSES = [
     Harness("H03d", h03d, quick=dict(N=3), thorough=dict(N=4), pattern="P3 bounded history", requires=["batched", "explicit-execute"], outside=OUT, selfcheck=False),
     Harness("H03e", h03e, quick=dict(K=3), thorough=dict(K=4), pattern="P3/P5 schedule as a variable", requires=["run", "recorded", "replaced-bet"], outside=OUT,
             max_paths=(400000, 5000000), wall_s=(300, 3000), selfcheck=False),
-    Harness("H03c", _h04b, quick=dict(K=1, focus="C03", variants=("default", "no-isolation")), thorough=dict(K=2, focus="C03", variants=("default", "no-isolation")),
+    Harness("H03c", _h04b, quick=dict(K=1, focus="C03", variants=("default", "no-isolation")), thorough=dict(K=2, focus="C03", variants=("default",), actions=("none", "place-rest", "place-cross", "place-sp", "cancel-all", "replace"), book_events=("open", "traded", "sp-reconciled", "runner-removed")),
             pattern="P3 bounded history through the simulation loop (transitions recorded at the write)", requires=["audited", "placed", "amended"],
             wall_s=(300, 3000), max_paths=(400000, 6000000), selfcheck=False, outside=OUT),
     Harness("H03b-sim", h03b_sim, pattern="P5 + P2 (response vs arbitrary in-flight pre-state)", requires=["handled", "completed-meanwhile", "replacement"], outside=OUT),
